@@ -184,7 +184,7 @@ def sp_func(ex, e, st):
 def sp_as(ex, e, st):
     # as_(x, 'obj:...') : same value with a static type hint (spec only)
     v = ex.ev(e.args[0], st)
-    return Val(v.t, e.args[1].value)
+    return Val(v.t, e.args[1].value, elems='cast')
 
 
 def sp_charcode(ex, e, st):
@@ -369,7 +369,10 @@ def b_str(ex, e, st):
     if ex.is_strlike(v):
         return v
     f = z3.Function('py_str', V, z3.StringSort())
-    return Val(mk_s(f(v.t)), 'str')
+    r = f(v.t)
+    # str(int) is an optional minus sign followed by decimal digits (assumed built-in contract)
+    st.assume(z3.Implies(is_i(v.t), z3.InRe(r, z3.Concat(z3.Option(z3.Re('-')), z3.Plus(z3.Range('0', '9'))))))
+    return Val(mk_s(r), 'str')
 
 
 def b_bool(ex, e, st):
@@ -461,6 +464,46 @@ def b_repr(ex, e, st):
     return Val(mk_s(f(v.t)), 'str')
 
 
+def b_sorted(ex, e, st):
+    used('sorted: a new list, a permutation of the iterable (only: same length, same members); raises TypeError for unorderable elements')
+    if len(e.args) != 1 or e.keywords:
+        raise OutOfSubset('sorted() with key/reverse')
+    v = ex.ev(e.args[0], st)
+    if v.ty in ('dict', 'set'):
+        q = z3.Select(ex.harr(st, '$dkeys'), rv(v.t))
+    elif v.ty in ('list', 'tuple'):
+        q = ex.seq_of(st, v)
+    else:
+        raise OutOfSubset('sorted() of %s' % v.ty)
+    cmp_ok = z3.Function('sortable', SeqV, z3.BoolSort())
+    ex.raise_if(st, z3.Not(cmp_ok(q)), 'TypeError', 'safe/sorted-comparable', e)
+    r = z3.Const(fresh_name('sorted'), SeqV)
+    i = z3.Int(fresh_name('si'))
+    st.assume(z3.Length(r) == z3.Length(q))
+    st.assume(z3.ForAll([i], z3.Implies(z3.And(0 <= i, i < z3.Length(r)), z3.Contains(q, z3.Unit(r[i]))), patterns=[r[i]]))
+    if v.ty in ('dict', 'set'):
+        has = z3.Select(ex.harr(st, '$dhas'), rv(v.t))
+        st.assume(z3.ForAll([i], z3.Implies(z3.And(0 <= i, i < z3.Length(r)), z3.Select(has, r[i])), patterns=[r[i]]))
+    return ex.new_list(st, r, 'list')
+
+
+def sp_prefix_of(ex, e, st):
+    a = ex.ev(e.args[0], st)
+    b = ex.ev(e.args[1], st)
+    return Val(mk_b(z3.PrefixOf(ex.seq_of(st, a), ex.seq_of(st, b))), 'bool')
+
+
+def sp_seq_contains(ex, e, st):
+    # seq_contains(s, lo, x): x occurs in s[lo:]
+    a = ex.seq_of(st, ex.ev(e.args[0], st))
+    lo = iv(ex.ev(e.args[1], st).t)
+    x = ex.ev(e.args[2], st)
+    return Val(mk_b(z3.Contains(z3.Extract(a, lo, z3.Length(a) - lo), z3.Unit(x.t))), 'bool')
+
+
+SPEC_FUNCS.update({'prefix_of': sp_prefix_of, 'seq_contains': sp_seq_contains})
+
+
 def b_next(ex, e, st):
     key = ('next', ex.f.qual)
     if key not in REG.externs:
@@ -469,7 +512,7 @@ def b_next(ex, e, st):
     return apply_contract(ex, REG.externs[key], None, st.env.get('self'), args[1:], {}, e, st, pnames=None, extra_env={'callee': args[0]})
 
 
-BUILTIN_FUNCS = {'next': b_next, 'len': b_len, 'isinstance': b_isinstance, 'ord': b_ord, 'chr': b_chr, 'int': b_int, 'str': b_str,
+BUILTIN_FUNCS = {'sorted': b_sorted, 'next': b_next, 'len': b_len, 'isinstance': b_isinstance, 'ord': b_ord, 'chr': b_chr, 'int': b_int, 'str': b_str,
                  'bool': b_bool, 'list': b_list, 'tuple': b_tuple, 'dict': b_dict, 'getattr': b_getattr,
                  'hasattr': b_hasattr, 'max': b_max, 'min': b_min, 'id': b_id, 'type': b_type, 'repr': b_repr}
 
@@ -672,6 +715,10 @@ def call_method(ex, recv, name, e, st):
         return m_bytes(ex, recv, name, e, st)
     if ty == 'tuple' and name in ('index', 'count'):
         return m_list(ex, recv, name, e, st)
+    if ty is None and name in ('keys', 'items', 'values', 'get', 'copy', 'setdefault'):
+        isd = z3.And(is_r(recv.t), typ(rv(recv.t)) == 2)
+        ex.raise_if(st, z3.Not(isd), 'AttributeError', 'safe/dict-method-' + name, e)
+        return m_dict(ex, Val(recv.t, 'dict'), name, e, st)
     if ty is None and name in STR_METHODS:
         # dynamic receiver: a str method on a non-str raises AttributeError
         ex.raise_if(st, z3.Not(is_s(recv.t)), 'AttributeError', 'safe/str-method-' + name, e)
